@@ -25,9 +25,9 @@ func init() {
 				Rule: "case = history of Add/Pop/Remove(i)/Set/Reorder/Clear/NewWithData (60-400 ops, keys with many duplicates, three comparison orders, sizes across >= 4 heap levels) followed by a full drain; every history is executed twice: as is, and with the verif hook substituting (i-1)/2 as the parent in pushUp (counterfactual). " +
 					"After EVERY op: Len/IsEmpty, multiset through Each, Front held and minimal under the current comparison, Peek(0)==Front, Remove(i) returns what Peek(i) showed, Add's returned index holds the element, Set does not alias or modify its argument; the drain is non-decreasing. " +
 					"A violation of the real run is attributed to known finding F1 iff it disappears in the counterfactual run and every parent index the hook saw was i/2 or (i-1)/2; any violation in a counterfactual run is a VIOLATION. " +
-					"heapq.Sort: every input of length <= 7 over 4 values (exhaustive) and random inputs up to 2000. " +
+					"Reorder to an unrelated order: every heap arrangement of 7 (8 thorough) distinct keys x every ranking as the new order, random ones for 8..24 elements, drain checked under the new order (counterfactual switch on). Very large queues: 262143..1.2 M elements (4 M thorough) put in by Set and Add and drained (count, conservation, drain order with the counterfactual switch on). Long-lived queues: one instance carries 120 000 (500 000 thorough) operations under light observation. heapq.Sort: every input of length <= 7 over 4 values (exhaustive) and random inputs up to 2000. " +
 					"distinct = hash of the op list; non-trivial = the queue reached >= 16 elements or an interior Remove(i) occurred",
-				Required:     []string{"histories", "histories_size_ge16", "interior_removes", "pushup_even_index_calls", "reorders", "sort_inputs", "drains", "large_queue_histories", "big_element_histories", "sparse_observation_histories"},
+				Required:     []string{"histories", "histories_size_ge16", "interior_removes", "pushup_even_index_calls", "reorders", "sort_inputs", "drains", "large_queue_histories", "big_element_histories", "sparse_observation_histories", "long_lived_queue_runs", "very_large_queues", "reorder_to_unrelated_order_cases"},
 				Exhaustive:   false,
 				Assumptions:  []string{"reference: map of held {Key,Tag} elements; minimality is checked against all held elements under the comparison currently installed", "known finding F1 is excused only through the counterfactual switch in heapq/verif_on.go"},
 				CoverPkgs:    []string{"github.com/creachadair/mds/heapq"},
@@ -163,6 +163,119 @@ func runC05(c *fw.Ctx) {
 		c.Seen(heapHash(ops))
 	}
 	idx += nl
+	// long-lived queues: one instance carries 120 000 (500 000 thorough) operations
+	// (light observation), so that anything accumulating per call can drift
+	for k := 0; k < c.Pick(1, 3); k++ {
+		if !c.Begin(idx + 5000 + k) {
+			continue
+		}
+		r := c.Rng()
+		o := opt
+		o.light = true
+		o.sparse = r.IntN(2) == 0
+		o.update = r.IntN(2) == 0
+		ops := heapGenOps(r, c.Pick(120000, 500000), []int{4, 1000, 1 << 30}[r.IntN(3)], false)
+		_, st := c05attribute(c, ops, o, "C05")
+		c.Add("long_lived_queue_runs", 1)
+		c.Max("max:queue_len", int64(st.maxLen))
+	}
+	// very large queues (262143 .. 1.2 M elements, 4 M thorough), one per block;
+	// order checked with the F1 counterfactual switch on
+	if c.Begin(idx + 5100 + c.Block) {
+		sizes := []int{262143, 262144, 262145, 300000, 524289, 600000, 1048577, 1200000}
+		n := sizes[c.Block%len(sizes)]
+		if c.Thorough() && c.Block%4 == 2 {
+			n = 4000000
+		}
+		ok, pv, stack := fw.Try(func() {
+			heapq.VerifFixParent.Store(true)
+			defer heapq.VerifFixParent.Store(false)
+			if pr := heapVeryLarge(c.Rng(), n, c.Block%2 == 0, true, c.Step); pr != "" {
+				c.Fail(map[string]any{"elements": n, "update_callback": c.Block%2 == 0, "mode": "counterfactual (F1 parent index corrected)"}, "%s", pr)
+			}
+		})
+		if !ok {
+			c.FailKind("panic", map[string]any{"elements": n}, "panic: %v\n%s", pv, stack)
+		}
+		c.Add("very_large_queues", 1)
+		c.Max("max:queue_len", int64(n))
+	}
+	// Reorder to an unrelated order, small queues: EVERY heap arrangement of 7
+	// (8 thorough) distinct keys x EVERY ranking as the new order (seed-independent),
+	// and random arrangements/rankings for 8..24 elements. Order is checked with
+	// the F1 counterfactual switch on.
+	if c.Begin(idx + 5300 + c.Block) {
+		ok, pv, stack := fw.Try(func() {
+			heapq.VerifFixParent.Store(true)
+			defer heapq.VerifFixParent.Store(false)
+			var cnt int64
+			n := c.Pick(7, 8)
+			var layouts [][]int
+			permutations(n, func(p []int) bool {
+				if isHeapLayout(p) {
+					layouts = append(layouts, append([]int(nil), p...))
+				}
+				return true
+			})
+			bad := false
+			li := 0
+			permutations(n, func(rank []int) bool {
+				li++
+				if li%c.NBlocks != c.Block {
+					return true
+				}
+				for _, lay := range layouts {
+					cnt++
+					if pr := heapReorderSmall(lay, rank); pr != "" {
+						c.Fail(map[string]any{"arrangement": lay, "new_order_ranks": append([]int(nil), rank...), "mode": "counterfactual (F1 parent index corrected)"}, "%s", pr)
+						bad = true
+						return false
+					}
+				}
+				if li%512 == 0 {
+					c.Step()
+				}
+				return !c.Stopped()
+			})
+			r := c.Rng()
+			for t := 0; t < c.Pick(20000, 300000) && !bad; t++ {
+				m := 8 + r.IntN(17)
+				lay := r.Perm(m)
+				sort.Ints(lay[:1+r.IntN(m)]) // partly ordered arrangements pass more relations
+				if !isHeapLayout(lay) {
+					// make it a heap under the natural order, as NewWithData will
+					q := heapq.NewWithData(func(a, b int) int { return a - b }, append([]int(nil), lay...))
+					lay = lay[:0]
+					q.Each(func(v int) bool { lay = append(lay, v); return true })
+				}
+				rank := r.Perm(m)
+				if t%3 == 0 {
+					// the new order agrees with the old one except for a few exchanged ranks
+					for i := range rank {
+						rank[i] = i
+					}
+					for x := 1 + r.IntN(3); x > 0; x-- {
+						a, b := r.IntN(m), r.IntN(m)
+						rank[a], rank[b] = rank[b], rank[a]
+					}
+				}
+				cnt++
+				if pr := heapReorderSmall(lay, rank); pr != "" {
+					c.Fail(map[string]any{"arrangement": lay, "new_order_ranks": rank, "mode": "counterfactual (F1 parent index corrected)"}, "%s", pr)
+					bad = true
+				}
+				if t%1024 == 0 {
+					c.Step()
+				}
+			}
+			c.Add("reorder_to_unrelated_order_cases", cnt)
+			c.Evals(cnt)
+			c.SeenEnum(cnt)
+		})
+		if !ok {
+			c.FailKind("panic", map[string]any{"phase": "Reorder to an unrelated order"}, "panic: %v\n%s", pv, stack)
+		}
+	}
 	// elements larger than 128 bytes, update callback installed
 	for k := 0; k < c.Pick(40, 600); k++ {
 		if !c.Begin(idx + k) {
